@@ -837,6 +837,8 @@ where
                 // current node. but only do that if the grandparent is something.
                 if let Some(grp) = grp {
                     if self.table[par].value.is_none() {
+                        // the parent is removed from the tree in both cases. Free its slot.
+                        self.free.push(par);
                         if let Some(sibling) = self.table.get_child(par, !par_right) {
                             self.table.set_child(grp, sibling, grp_right);
                             return (value, true);
